@@ -179,6 +179,13 @@ func (r *Router) RemoveNode(addr net.Addr) {
 
 // FaultsApplied returns how many scheduled faults hit a datagram that existed, and the
 // virtual time of the last fault of any kind.
+// LogCopy returns a copy of the event log taken under the router's lock (for use while traffic goes on).
+func (r *Router) LogCopy() []Event {
+	r.mu.Lock()
+	defer r.mu.Unlock()
+	return append([]Event(nil), r.Log...)
+}
+
 func (r *Router) FaultsApplied() (int, time.Duration) {
 	r.mu.Lock()
 	defer r.mu.Unlock()
